@@ -1730,10 +1730,12 @@ theorem replaceBlock_inv (s : St) (h : WFL s) (b r : Nat) (hr : r < s.next) : In
   have h1 := (wfl_step s (.copy r) h hr).1
   have h1' : Inv (copyTree s r) := h1
   unfold replaceBlock
-  apply setChildren_inv _ b _ (dropKids_inv _ _ h1') (h1'.3 s.next)
+  have hm : Inv (setMeta (dropKids (copyTree s r) s.next) b (s.flags r) (s.typ r)) :=
+    inv_of_eq (s := dropKids (copyTree s r) s.next) rfl rfl (dropKids_inv _ _ h1')
+  apply setChildren_inv _ b _ hm (h1'.3 s.next)
   intro c hc
   left
-  simp [dropKids, hc]
+  simp [setMeta, dropKids, hc]
 
 /-- the replaced block's new children are exactly the (copied) children of the replacement's copy, all adds
 being accepted is part of the tie; the former children are parentless (detached by `removeAll`) -/
@@ -1748,15 +1750,16 @@ theorem replaceBlock_old_children_detached (s : St) (h : WFL s) (b r : Nat) (hr 
     refine ⟨q, rfl, ?_⟩
     -- a parent pointer after setChildren is an old one of the intermediate state or `b`
     unfold replaceBlock setChildren at hp
-    obtain ⟨i1, i2, _, i4, i5⟩ := removeAll_inv (dropKids (copyTree s r) s.next) b (dropKids_inv _ _ (wfl_step s (.copy r) h hr).1)
+    obtain ⟨i1, i2, _, i4, i5⟩ := removeAll_inv (setMeta (dropKids (copyTree s r) s.next) b (s.flags r) (s.typ r)) b
+      (inv_of_eq (s := dropKids (copyTree s r) s.next) rfl rfl (dropKids_inv _ _ (wfl_step s (.copy r) h hr).1))
     simp only [i2, if_true, seqOps] at hp
     rcases seqAdd_parent b _ _ true c q hp with h1 | h2
-    · have hkb : c ∈ (dropKids (copyTree s r) s.next).kids b := by
+    · have hkb : c ∈ (setMeta (dropKids (copyTree s r) s.next) b (s.flags r) (s.typ r)).kids b := by
         have hold := (copy_old s r _ (by
           obtain ⟨hi0, ⟨d, hd⟩, hl⟩ := h
           exact copyOK_subtree' s d hi0 hd r hr hl) h.1 b hb).2.1
         have hbt : b ≠ s.next := Nat.ne_of_lt hb
-        simp only [dropKids, hbt, if_false]
+        simp only [setMeta, dropKids, hbt, if_false]
         show c ∈ (copyTree s r).kids b
         rw [show (copyTree s r).kids b = s.kids b from hold]; exact hc
       rw [i4 c hkb] at h1; cases h1
@@ -2053,5 +2056,146 @@ example : PreAllL2 St.empty
     simp [PreL2, PreL, PreA, Pre, step2, step, newNode, St.empty, add, cAdd, kCore, kAssembly, kBlock, kSfp, setKids,
       setParent, setLoc, removeAssembly, remove, cRemove, excoreAdd]
   all_goals (try (intro h; cases h <;> simp_all))
+
+
+/-! ### caller-side idioms on query results (fresh lists), query - edit - query -/
+
+private theorem cRemove_kind (s : St) (p c : Nat) : (cRemove s p c).1.kind = s.kind := by
+  unfold cRemove; split <;> rfl
+
+private theorem seqRemove_kind (p : Nat) : ∀ (l : List Nat) (s : St) (b : Bool),
+    (l.foldl (fun acc c => if acc.2 then remove acc.1 p c else acc) (s, b)).1.kind = s.kind
+  | [], _, _ => rfl
+  | c :: rest, s, b => by
+    rw [List.foldl_cons]
+    cases b with
+    | false => simpa using seqRemove_kind p rest s false
+    | true =>
+      simp only [if_true]
+      have e : remove s p c = ((remove s p c).1, (remove s p c).2) := rfl
+      rw [e, seqRemove_kind p rest _ _]
+      exact cRemove_kind s p c
+
+theorem removeAll_kind (s : St) (p : Nat) : (removeAll s p).1.kind = s.kind :=
+  seqRemove_kind p (s.kids p) s true
+
+private theorem add_kids_ok (s : St) (p c : Nat) (hok : (add s p c).2 = true) :
+    (add s p c).1.kids p = s.kids p ++ [c] := by
+  unfold add cAdd reestablish at *
+  repeat' split at hok
+  all_goals simp_all [setKids, setLoc, setParent]
+
+/-- adding a duplicate-free list of parentless, admissible objects: every add is accepted and the child list grows by
+exactly that list, in that order -/
+private theorem seqAdd_exact (p : Nat) : ∀ (l : List Nat) (s : St), Inv s → l.Nodup → (∀ c ∈ l, s.parent c = none) →
+    (s.kind p = kAssembly → ∀ c ∈ l, s.kind c = kBlock) →
+    (seqOps (fun t c => add t p c) s l).2 = true ∧ (seqOps (fun t c => add t p c) s l).1.kids p = s.kids p ++ l := by
+  intro l
+  induction l with
+  | nil => intro s _ _ _ _; simp [seqOps]
+  | cons c rest ih =>
+    intro s h hnd hall hk
+    have hnd' := List.nodup_cons.mp hnd
+    have hok := add_ok s p c h (hall c (by simp)) (fun hp => hk hp c (by simp))
+    have hi := add_inv s p c h (hall c (by simp))
+    have e : add s p c = ((add s p c).1, true) := Prod.ext rfl hok
+    have step : seqOps (fun t c => add t p c) s (c :: rest) = seqOps (fun t c => add t p c) (add s p c).1 rest := by
+      simp only [seqOps, List.foldl_cons, if_true]; rw [← e]
+    rw [step]
+    have := ih (add s p c).1 hi hnd'.2
+      (fun x hx => by
+        have hne : x ≠ c := by intro e'; subst e'; exact hnd'.1 hx
+        rw [add_parent_other s p c x hne]; exact hall x (by simp [hx]))
+      (fun hp x hx => by
+        rw [add_kind] at hp ⊢; exact hk hp x (by simp [hx]))
+    refine ⟨this.1, ?_⟩
+    rw [this.2, add_kids_ok s p c hok]; simp
+
+/-- **the re-ordering idiom** `order = x.getChildren(); <permute order>; x.setChildren(order)` (and any `setChildren`
+with distinct items that are parentless or current children, blocks if `x` is an assembly): every step is accepted,
+afterwards `x` lists EXACTLY `order`, in that order, every member's parent is `x`, and the tree is well formed.
+(`order` is a value of the caller: a fresh list.  If the query handed back the live child list instead, `removeAll`
+would empty `order` as well -- `aliased_drain_skips` below shows what iteration over a live list does.) -/
+theorem setChildren_exact (s : St) (p : Nat) (items : List Nat) (h : Inv s) (hnd : items.Nodup)
+    (hit : ∀ c ∈ items, s.parent c = none ∨ s.parent c = some p)
+    (hk : s.kind p = kAssembly → ∀ c ∈ items, s.kind c = kBlock) :
+    (setChildren s p items).2 = true ∧ (setChildren s p items).1.kids p = items ∧
+    (∀ c ∈ items, (setChildren s p items).1.parent c = some p) ∧ Inv (setChildren s p items).1 := by
+  have hinv := setChildren_inv s p items h hnd hit
+  obtain ⟨i1, i2, i3, i4, i5⟩ := removeAll_inv s p h
+  have hpar : ∀ c ∈ items, (removeAll s p).1.parent c = none := by
+    intro c hc
+    by_cases hkid : c ∈ s.kids p
+    · exact i4 c hkid
+    · rw [i5 c hkid]
+      rcases hit c hc with h0 | h1
+      · exact h0
+      · exact absurd (h.2 c p h1) hkid
+  have hkind : (removeAll s p).1.kind p = kAssembly → ∀ c ∈ items, (removeAll s p).1.kind c = kBlock := by
+    rw [removeAll_kind]; exact hk
+  obtain ⟨a1, a2⟩ := seqAdd_exact p items (removeAll s p).1 i1 hnd hpar hkind
+  have e : setChildren s p items = seqOps (fun t c => add t p c) (removeAll s p).1 items := by
+    unfold setChildren; simp [i2]
+  refine ⟨by rw [e]; exact a1, by rw [e, a2, i3]; simp, ?_, hinv⟩
+  intro c hc
+  have hk2 : c ∈ (setChildren s p items).1.kids p := by rw [e, a2, i3]; simpa using hc
+  exact hinv.1 p c hk2
+
+/-- the permutation instance: `order` any permutation of the current children -/
+theorem reorder_idiom (s : St) (p : Nat) (order : List Nat) (h : Inv s) (hperm : order.Perm (s.kids p))
+    (hk : s.kind p = kAssembly → ∀ c ∈ s.kids p, s.kind c = kBlock) :
+    (setChildrenCode s p order).2 = true ∧ (setChildrenCode s p order).1.kids p = order ∧
+    ∀ c ∈ order, (setChildrenCode s p order).1.parent c = some p := by
+  rw [setChildrenCode_eq]
+  have hnd : order.Nodup := hperm.nodup_iff.mpr (h.3 p)
+  obtain ⟨a, b, c, _⟩ := setChildren_exact s p order h hnd
+    (fun x hx => Or.inr (h.1 p x (hperm.mem_iff.mp hx))) (fun hp x hx => hk hp x (hperm.mem_iff.mp hx))
+  exact ⟨a, b, c⟩
+
+/-- **`for c in x.getChildren(): x.remove(c)`** over a fresh result is `removeAll`'s own loop: every child is
+removed, the list ends empty (`removeAll_inv`) -/
+theorem drain_idiom (s : St) (p : Nat) (h : Inv s) :
+    (removeAllCode s p).2 = true ∧ (removeAllCode s p).1.kids p = [] ∧ ∀ x ∈ s.kids p, (removeAllCode s p).1.parent x = none := by
+  rw [removeAllCode_eq]
+  obtain ⟨_, i2, i3, i4, _⟩ := removeAll_inv s p h
+  exact ⟨i2, i3, i4⟩
+
+/-- Python's `for c in L: L.remove(c)` on ONE live list (what the loop becomes if the query result IS the child
+list): position `i` advances while the list shrinks under it -/
+def aliasedDrain : Nat → Nat → List Nat → List Nat
+  | 0, _, l => l
+  | f + 1, i, l => match l[i]? with
+    | none => l
+    | some c => aliasedDrain f (i + 1) (l.erase c)
+
+/-- **why the result must be a fresh list**: iterating the live child list while removing from it skips every other
+child -- `[a, b, c, d]` ends as `[b, d]` -/
+theorem aliased_drain_skips : aliasedDrain 10 0 [1, 2, 3, 4] = [2, 4] := by decide
+
+/-- **query - edit - query**: the typed queries are functions of the current state; after ANY edit of the alphabet
+(ex-core edits included) or a change of a child's type name / flags they answer from the child list and the meta data
+of that moment -- there is nothing in the model that could go stale -/
+theorem typed_queries_follow_edits (s : St) (op : Op2) (f : Nat) (n t : Nat) (spec : Spec) (exact : Bool) :
+    getChildrenOfType (step2 s op) (f + 1) t n = ((step2 s op).kids n).filter (fun o => (step2 s op).typ o == t) ∧
+    getChildrenWithFlags (step2 s op) (f + 1) spec exact n =
+      ((step2 s op).kids n).filter (fun o => hasFlags ((step2 s op).flags o) spec exact) ∧
+    getFirstBlockByType (step2 s op) t n = ((step2 s op).kids n).find? (fun o => (step2 s op).typ o == t) :=
+  ⟨getChildrenOfType_spec _ f t n, getChildrenWithFlags_spec _ f spec exact n, getFirstBlockByType_spec _ t n⟩
+
+/-- a child's new type name is what the parent's type query sees (and the old name no longer matches it) -/
+theorem setMeta_query (s : St) (c fl t n f : Nat) (hc : c ∈ s.kids n) :
+    c ∈ getChildrenOfType (setMeta s c fl t) (f + 1) t n ∧
+    ∀ t', t' ≠ t → c ∉ getChildrenOfType (setMeta s c fl t) (f + 1) t' n := by
+  rw [getChildrenOfType_spec]
+  refine ⟨?_, ?_⟩
+  · simp [setMeta, List.mem_filter, hc]
+  · intro t' ht
+    rw [getChildrenOfType_spec]
+    simp [setMeta, List.mem_filter, hc]
+    exact fun e => ht e.symm
+
+/-- `setType` / a flag change is not structural -/
+theorem setMeta_inv (s : St) (c fl t : Nat) (h : Inv s) : Inv (setMeta s c fl t) :=
+  inv_of_eq (s := s) rfl rfl h
 
 end ArmiVerif.Tree
